@@ -52,6 +52,11 @@ type Config struct {
 	PPrefixName  float64 `json:"p_prefix_name"`
 	PThrFlip     float64 `json:"p_threshold_flip"`
 	PRollback    float64 `json:"p_rolled_back_edit"`
+	// order-sensitive aggregation (C11: "no outcome depends on ... map iteration order ... or on
+	// floating-point"): averages over three or more large answers, where the order of a float64
+	// summation shows in the eighth decimal
+	PAvg         float64 `json:"p_avg,omitempty"`
+	MinProviders int     `json:"min_providers,omitempty"`
 }
 
 // Module implements engine.Module.
@@ -132,6 +137,13 @@ func (m *Module) Configure(w *engine.World, r *engine.Rand) any {
 	c.PPrefixName = []float64{0.3, 0.6, 0.9}[r.Intn(3)]
 	c.PThrFlip = []float64{0.3, 1, 2}[r.Intn(3)]
 	c.PRollback = []float64{0.3, 0.7, 1.5}[r.Intn(3)]
+	if w.Focus == "C11" && r.Bool(0.7) {
+		c.Classes[clsHugePos] += 6
+		c.Classes[clsHugeNeg] += 3
+		c.PAvg = 0.7
+		c.MinProviders = 3
+		c.PSilent, c.PErrResult = 0, 0
+	}
 	return c
 }
 
